@@ -228,6 +228,19 @@ func init() {
 		"(*sync.RWMutex).RLock", "(*sync.RWMutex).RUnlock", "math/rand.Seed", "runtime.Gosched", "runtime.GC"} {
 		natives[n] = noop
 	}
+	// mutexes: no effect on the single-baton schedule, but they order the segments of race.go
+	for _, n := range []string{"(*sync.Mutex).Lock", "(*sync.RWMutex).Lock", "(*sync.RWMutex).RLock"} {
+		natives[n] = func(in *Interp, fn *ssa.Function, args []Value) Value {
+			in.raceLock(args[0], true)
+			return in.zeroResults(fn.Signature)
+		}
+	}
+	for _, n := range []string{"(*sync.Mutex).Unlock", "(*sync.RWMutex).Unlock", "(*sync.RWMutex).RUnlock"} {
+		natives[n] = func(in *Interp, fn *ssa.Function, args []Value) Value {
+			in.raceLock(args[0], false)
+			return in.zeroResults(fn.Signature)
+		}
+	}
 	die := func(in *Interp, fn *ssa.Function, args []Value) Value {
 		in.panicIf(in.St.T, "exit:"+fn.Name())
 		return &TupleVal{}
